@@ -5,6 +5,7 @@
   (`NoSplit`) unless somebody is subscribed to the mailbox (then both rows are re-stamped first).
 -/
 import Wormhole.Inv.TchDefs
+import Wormhole.Inv.SweepSys
 
 namespace Wormhole
 namespace Sys
@@ -14,6 +15,16 @@ variable {u t : Time} {m ap : String} {b a : Sys}
 theorem TchRel.blurTime (h : TchRel u t m ap b a) : a.blurTime = b.blurTime := by
   funext x
   simp only [Sys.blurTime, Sys.blurTicks, h.cfg]
+
+/-- the same conditional UPDATE of `updated` on related rows -/
+theorem _root_.Wormhole.RowRel.ite_set {rb ra : MailboxRow} (hr : RowRel u t m ap rb ra) {P Q : Prop} [Decidable P]
+    [Decidable Q] (hpq : Q ↔ P) (v : Time) :
+    RowRel u t m ap (if P then { rb with updated := v } else rb) (if Q then { ra with updated := v } else ra) := by
+  by_cases hp : P
+  · rw [if_pos hp, if_pos (hpq.2 hp)]
+    exact Or.inl (hr.set v)
+  · rw [if_neg hp, if_neg (fun hq => hp (hpq.1 hq))]
+    exact hr
 
 /-! ### usage blocks -/
 
@@ -25,7 +36,9 @@ theorem TchRel.storeNameplateUsage (h : TchRel u t m ap b a) (app : String) (sid
   rw [h.blurTime]
   cases summarizeNameplate b.blurTime (sides.map (·.added)) t' p with
   | none => exact ⟨h, rfl⟩
-  | some s => exact ⟨h.modUdb _ _, rfl⟩
+  | some s =>
+    dsimp only
+    exact ⟨h.modUdb _ _, rfl⟩
 
 theorem TchRel.storeMailboxUsage (h : TchRel u t m ap b a) (app : String) (f : Bool) (sides : List MbSide) (t' : Time)
     (p : Bool) :
@@ -74,7 +87,7 @@ theorem TchRel.uNps (app : String) (t' : Time) (l : List Nameplate) :
         rw [hb, ha] at h1 e1
         dsimp only at h1 e1
         subst e1
-        cases rb with
+        cases ra with
         | false => exact ⟨h1, rfl⟩
         | true => exact ih h1
 
@@ -166,12 +179,358 @@ theorem TchRel.mailboxClose (h : TchRel u t m ap b a) (app mb side : String) (mo
             rw [hb, ha] at h2 e2'
             dsimp only at h2 e2'
             subst e2'
-            cases rb2 with
+            cases ra2 with
             | false => exact ⟨h2, rfl⟩
             | true =>
               dsimp only
-              have h3 := h2.modDb (h2.db.closeDeletes app mb)
+              have h3 := h2.modDb
+                (f := fun d => ((((d.delNpSidesOfMailbox app mb).delNameplatesOfMailbox app mb).delMessagesOf mb).delMbSidesOf
+                  mb).delMailbox mb)
+                (g := fun d => ((((d.delNpSidesOfMailbox app mb).delNameplatesOfMailbox app mb).delMessagesOf mb).delMbSidesOf
+                  mb).delMailbox mb) (h2.db.closeDeletes app mb)
               exact ⟨(((h3.uMb app rb.forNp _ t' false).uCommit).commit).stopListeners app mb, rfl⟩
+
+
+/-! ### AppNamespace -/
+
+theorem TchRel.claimCont (h : TchRel u t m ap b a) (app : String) (npid : Nat) (mb side : String) (t' : Time) :
+    TchRel u t m ap (claimCont b app npid mb side t').1 (claimCont a app npid mb side t').1 ∧
+      (claimCont a app npid mb side t').2 = (claimCont b app npid mb side t').2 := by
+  unfold Sys.claimCont
+  dsimp only
+  obtain ⟨h3, e3⟩ := h.commit.openMailbox app mb side t'
+  cases hb : b.commit.openMailbox app mb side t' with
+  | mk b3 ob =>
+    cases ha : a.commit.openMailbox app mb side t' with
+    | mk a3 oa =>
+      rw [hb, ha] at h3 e3
+      dsimp only at h3 e3
+      subst e3
+      cases oa with
+      | integrity => exact ⟨h3, rfl⟩
+      | crowded => exact ⟨h3, rfl⟩
+      | ok =>
+        dsimp only
+        rw [h3.db.npSidesOf]
+        split
+        · exact ⟨h3, rfl⟩
+        · exact ⟨h3, rfl⟩
+
+theorem TchRel.claimTail (h : TchRel u t m ap b a) (app : String) (npid : Nat) (mb side : String) (t' : Time) :
+    TchRel u t m ap (b.claimTail app npid mb side t').1 (a.claimTail app npid mb side t').1 ∧
+      (a.claimTail app npid mb side t').2 = (b.claimTail app npid mb side t').2 := by
+  rw [claimTail_eq, claimTail_eq, h.db.findNpSide]
+  cases b.db.findNpSide npid side with
+  | none => exact (h.modDb (h.db.insNpSide _)).claimCont app npid mb side t'
+  | some r =>
+    dsimp only
+    split
+    · exact h.claimCont app npid mb side t'
+    · exact ⟨h, rfl⟩
+
+/-- `claim_nameplate` -/
+theorem TchRel.claimNameplate (h : TchRel u t m ap b a) (app name side : String) (t' : Time) (fresh : String) :
+    TchRel u t m ap (b.claimNameplate app name side t' fresh).1 (a.claimNameplate app name side t' fresh).1 ∧
+      (a.claimNameplate app name side t' fresh).2 = (b.claimNameplate app name side t' fresh).2 := by
+  unfold Sys.claimNameplate
+  rw [h.db.findNameplate]
+  cases b.db.findNameplate app name with
+  | some row => exact h.claimTail app row.id row.mailbox side t'
+  | none =>
+    dsimp only
+    rcases h.addMailbox app fresh true t' with ⟨e1, e2⟩ | ⟨b1, a1, e1, e2, h1⟩
+    · rw [e1, e2]; exact ⟨h, rfl⟩
+    · rw [e1, e2]
+      dsimp only
+      rw [h1.db.next]
+      exact (h1.modDb (h1.db.insNameplate app name fresh)).claimTail app _ fresh side t'
+
+/-- `release_nameplate` -/
+theorem TchRel.releaseNameplate (h : TchRel u t m ap b a) (app name side : String) (t' : Time) :
+    TchRel u t m ap (b.releaseNameplate app name side t').1 (a.releaseNameplate app name side t').1 ∧
+      (a.releaseNameplate app name side t').2 = (b.releaseNameplate app name side t').2 := by
+  rw [releaseNameplate_eq, releaseNameplate_eq, h.db.findNameplate]
+  cases b.db.findNameplate app name with
+  | none => exact ⟨h, rfl⟩
+  | some np =>
+    dsimp only
+    rw [h.db.findNpSide]
+    cases b.db.findNpSide np.id side with
+    | none => exact ⟨h, rfl⟩
+    | some r =>
+      dsimp only
+      have h1 : TchRel u t m ap ((b.modDb (·.unclaim np.id side)).commit) ((a.modDb (·.unclaim np.id side)).commit) :=
+        (h.modDb (h.db.unclaim np.id side)).commit
+      rw [h1.db.npSidesOf]
+      split
+      · exact ⟨h1, rfl⟩
+      · have h2 : TchRel u t m ap
+            (((b.modDb (·.unclaim np.id side)).commit).modDb (fun d => (d.delNpSidesOf np.id).delNameplate np.id))
+            (((a.modDb (·.unclaim np.id side)).commit).modDb (fun d => (d.delNpSidesOf np.id).delNameplate np.id)) :=
+          h1.modDb (h1.db.delNp np.id)
+        obtain ⟨h3, e3⟩ := h2.uNp app (((b.modDb (·.unclaim np.id side)).commit).db.npSidesOf np.id) t' false
+        cases hb : (((b.modDb (·.unclaim np.id side)).commit).modDb
+            (fun d => (d.delNpSidesOf np.id).delNameplate np.id)).uNp app
+            (((b.modDb (·.unclaim np.id side)).commit).db.npSidesOf np.id) t' false with
+        | mk b3 rb3 =>
+          cases ha : (((a.modDb (·.unclaim np.id side)).commit).modDb
+              (fun d => (d.delNpSidesOf np.id).delNameplate np.id)).uNp app
+              (((b.modDb (·.unclaim np.id side)).commit).db.npSidesOf np.id) t' false with
+          | mk a3 ra3 =>
+            rw [hb, ha] at h3 e3
+            dsimp only at h3 e3
+            subst e3
+            cases ra3 with
+            | false => exact ⟨h3, rfl⟩
+            | true => exact ⟨h3.uCommit.commit, rfl⟩
+
+/-! ### prune -/
+
+theorem TchRel.touchListened (h : TchRel u t m ap b a) (app : String) (now : Time) :
+    TchRel u t m ap (b.touchListened app now) (a.touchListened app now) := by
+  unfold Sys.touchListened
+  refine h.modDb ⟨h.db.nps, h.db.sides, ?_, h.db.mbSides, h.db.msgs, h.db.next⟩
+  apply h.db.mbs.map
+  intro rb _ ra _ hr
+  exact hr.ite_set (by rw [h.listeners, hr.id, hr.app]) now
+
+theorem TchRel.pruneNameplates (app : String) (now : Time) (l : List Nameplate) :
+    ∀ {b a : Sys}, TchRel u t m ap b a →
+      TchRel u t m ap (b.pruneNameplates app now l).1 (a.pruneNameplates app now l).1 ∧
+        (a.pruneNameplates app now l).2 = (b.pruneNameplates app now l).2 := by
+  induction l with
+  | nil => intro b a h; exact ⟨h, rfl⟩
+  | cons np rest ih =>
+    intro b a h
+    rw [pruneNameplates_cons, pruneNameplates_cons, h.db.npSidesOf]
+    have h1 : TchRel u t m ap (b.modDb (fun d => (d.delNpSidesOf np.id).delNameplate np.id))
+        (a.modDb (fun d => (d.delNpSidesOf np.id).delNameplate np.id)) := h.modDb (h.db.delNp np.id)
+    obtain ⟨h2, e2⟩ := h1.uNp app (b.db.npSidesOf np.id) now true
+    cases hb : (b.modDb (fun d => (d.delNpSidesOf np.id).delNameplate np.id)).uNp app (b.db.npSidesOf np.id) now true with
+    | mk b2 rb2 =>
+      cases ha : (a.modDb (fun d => (d.delNpSidesOf np.id).delNameplate np.id)).uNp app (b.db.npSidesOf np.id) now true with
+      | mk a2 ra2 =>
+        rw [hb, ha] at h2 e2
+        dsimp only at h2 e2
+        subst e2
+        cases ra2 with
+        | false => exact ⟨h2, rfl⟩
+        | true => exact ih h2
+
+/-- the loop over `old_mailboxes`, the two lists related row by row -/
+theorem TchRel.pruneMailboxes (app : String) (now : Time) :
+    ∀ {lb la : List MailboxRow}, All2 (RowRel u t m ap) lb la → ∀ {b a : Sys}, TchRel u t m ap b a →
+      TchRel u t m ap (b.pruneMailboxes app now lb) (a.pruneMailboxes app now la) := by
+  intro lb la hl
+  induction hl with
+  | nil => intro b a h; exact h
+  | @cons rb ra lb la hr _ ih =>
+    intro b a h
+    rw [pruneMailboxes_cons, pruneMailboxes_cons, hr.id, hr.forNp, h.db.mbSidesOf]
+    have h1 : TchRel u t m ap (b.modDb (fun d => ((d.delMessagesOf rb.id).delMbSidesOf rb.id).delMailbox rb.id))
+        (a.modDb (fun d => ((d.delMessagesOf rb.id).delMbSidesOf rb.id).delMailbox rb.id)) := h.modDb (h.db.delMb rb.id)
+    exact ih (h1.uMb app rb.forNp _ now true)
+
+/-- the cutoff `old` does not separate the two stamps -/
+def NoSplit (u t old : Time) : Prop := (u ≤ old ↔ t ≤ old)
+
+instance (u t old : Time) : Decidable (NoSplit u t old) := by unfold NoSplit; infer_instance
+
+/-- `AppNamespace.prune`: related results when, for the app of the distinguished mailbox, either somebody is
+    subscribed to it (both rows are re-stamped by the touch loop) or the cutoff does not separate `u` and `t` -/
+theorem TchRel.prune (h : TchRel u t m ap b a) (app : String) (now old : Time)
+    (hns : app = ap → b.listeners ap m ≠ [] ∨ NoSplit u t old) :
+    TchRel u t m ap (b.prune app now old).1 (a.prune app now old).1 ∧
+      (a.prune app now old).2 = (b.prune app now old).2 := by
+  rw [prune_eq, prune_eq, pruneRest_eq, pruneRest_eq]
+  dsimp only
+  have h1 : TchRel u t m ap ((b.touchListened app now).commit) ((a.touchListened app now).commit) :=
+    (h.touchListened app now).commit
+  -- the two `old_mailboxes` lists are related
+  have hold : All2 (RowRel u t m ap)
+      ((((b.touchListened app now).commit).db.mailboxesOfApp app).filter (fun r => ¬ r.updated > old))
+      ((((a.touchListened app now).commit).db.mailboxesOfApp app).filter (fun r => ¬ r.updated > old)) := by
+    simp only [commit_db]
+    unfold Sys.touchListened Chan.mailboxesOfApp
+    simp only [modDb_db, List.filter_filter]
+    rw [List.filter_map, List.filter_map]
+    apply All2.map
+    · apply h.db.mbs.filter
+      intro rb _ ra _ hr
+      simp only [Function.comp_apply, h.listeners, hr.id, hr.app]
+      rcases hr with rfl | ⟨e1, e2, e3, rfl⟩
+      · rfl
+      · by_cases hc : rb.app = app ∧ b.listeners app rb.id ≠ []
+        · simp only [hc, and_self, ne_eq, not_false_eq_true, if_true]
+        · simp only [hc, if_false]
+          by_cases happ : rb.app = app
+          · have hl : b.listeners app rb.id = [] := by
+              by_cases hl : b.listeners app rb.id = []
+              · exact hl
+              · exact absurd ⟨happ, hl⟩ hc
+            have := hns (happ.symm.trans e2)
+            rw [← e2, happ, ← e1, hl] at this
+            rcases this with h' | h'
+            · exact absurd rfl h'
+            · unfold NoSplit at h'
+              simp only [happ, e3, Int.not_lt, decide_true, Bool.and_true, gt_iff_lt]
+              exact decide_eq_decide.2 h'
+          · simp [happ]
+    · intro rb hb ra _ hr
+      exact hr.ite_set (by rw [h.listeners, hr.id, hr.app]) now
+  have hnpl : (((a.touchListened app now).commit).db.nameplatesOfApp app).filter
+        (fun r => r.mailbox ∈ ((((a.touchListened app now).commit).db.mailboxesOfApp app).filter
+          (fun r => ¬ r.updated > old)).map (·.id)) =
+      (((b.touchListened app now).commit).db.nameplatesOfApp app).filter
+        (fun r => r.mailbox ∈ ((((b.touchListened app now).commit).db.mailboxesOfApp app).filter
+          (fun r => ¬ r.updated > old)).map (·.id)) := by
+    rw [h1.db.nameplatesOfApp, (hold.map_eq (·.id) (·.id) (fun _ _ _ _ hr => hr.id.symm))]
+  rw [hnpl]
+  obtain ⟨h2, e2⟩ := TchRel.pruneNameplates app now
+    ((((b.touchListened app now).commit).db.nameplatesOfApp app).filter
+      (fun r => r.mailbox ∈ ((((b.touchListened app now).commit).db.mailboxesOfApp app).filter
+        (fun r => ¬ r.updated > old)).map (·.id))) h1
+  cases hb : ((b.touchListened app now).commit).pruneNameplates app now
+      ((((b.touchListened app now).commit).db.nameplatesOfApp app).filter
+        (fun r => r.mailbox ∈ ((((b.touchListened app now).commit).db.mailboxesOfApp app).filter
+          (fun r => ¬ r.updated > old)).map (·.id))) with
+  | mk b2 rb2 =>
+    cases ha : ((a.touchListened app now).commit).pruneNameplates app now
+        ((((b.touchListened app now).commit).db.nameplatesOfApp app).filter
+          (fun r => r.mailbox ∈ ((((b.touchListened app now).commit).db.mailboxesOfApp app).filter
+            (fun r => ¬ r.updated > old)).map (·.id))) with
+    | mk a2 ra2 =>
+      rw [hb, ha] at h2 e2
+      dsimp only at h2 e2
+      subst e2
+      cases ra2 with
+      | false => exact ⟨h2, rfl⟩
+      | true =>
+        dsimp only
+        have h3 := TchRel.pruneMailboxes app now hold h2
+        have hnil : ((((a.touchListened app now).commit).db.mailboxesOfApp app).filter (fun r => ¬ r.updated > old)) ≠ [] ↔
+            ((((b.touchListened app now).commit).db.mailboxesOfApp app).filter (fun r => ¬ r.updated > old)) ≠ [] := by
+          have := hold.length_eq
+          constructor
+          · intro h' e; rw [e] at this; exact h' (List.eq_nil_of_length_eq_zero this.symm)
+          · intro h' e; rw [e] at this; exact h' (List.eq_nil_of_length_eq_zero this)
+        simp only [hnil]
+        split
+        · exact ⟨h3.commit.uCommit, rfl⟩
+        · exact ⟨h3, rfl⟩
+
+theorem tch_uNp_conns (s : Sys) (app sides t' p) : (s.uNp app sides t' p).1.conns = s.conns := by
+  unfold Sys.uNp
+  split
+  · exact (storeNameplateUsage_fixed s app sides t' p).1.conns
+  · rfl
+
+theorem tch_pruneNameplates_conns (app : String) (now : Time) (l : List Nameplate) :
+    ∀ s : Sys, (s.pruneNameplates app now l).1.conns = s.conns := by
+  induction l with
+  | nil => intro s; rfl
+  | cons np rest ih =>
+    intro s
+    rw [pruneNameplates_cons]
+    have h1 := tch_uNp_conns (s.modDb (fun d => (d.delNpSidesOf np.id).delNameplate np.id)) app (s.db.npSidesOf np.id) now true
+    cases e : (s.modDb (fun d => (d.delNpSidesOf np.id).delNameplate np.id)).uNp app (s.db.npSidesOf np.id) now true with
+    | mk s2 r =>
+      rw [e] at h1
+      cases r with
+      | false => exact h1
+      | true => dsimp only; rw [ih s2]; exact h1
+
+theorem prune_conns (s : Sys) (app : String) (now old : Time) : (s.prune app now old).1.conns = s.conns := by
+  rw [prune_eq, pruneRest_eq]
+  dsimp only
+  have h1 := tch_pruneNameplates_conns app now
+    ((((s.touchListened app now).commit).db.nameplatesOfApp app).filter
+      (fun r => r.mailbox ∈ ((((s.touchListened app now).commit).db.mailboxesOfApp app).filter
+        (fun r => ¬ r.updated > old)).map (·.id))) ((s.touchListened app now).commit)
+  cases e : ((s.touchListened app now).commit).pruneNameplates app now
+    ((((s.touchListened app now).commit).db.nameplatesOfApp app).filter
+      (fun r => r.mailbox ∈ ((((s.touchListened app now).commit).db.mailboxesOfApp app).filter
+        (fun r => ¬ r.updated > old)).map (·.id))) with
+  | mk s2 r =>
+    rw [e] at h1
+    have h0 : ((s.touchListened app now).commit).conns = s.conns := by simp [Sys.touchListened]
+    cases r with
+    | false => exact h1.trans h0
+    | true =>
+      dsimp only
+      have h3 := (sw_pruneMailboxes_db (app := app) (now := now)
+        ((((s.touchListened app now).commit).db.mailboxesOfApp app).filter (fun r => ¬ r.updated > old)) s2).2.conns
+      split
+      · simp only [Sys.uCommit]
+        split
+        · simp only [ucommit_conns, commit_conns]; exact h3.trans (h1.trans h0)
+        · simp only [commit_conns]; exact h3.trans (h1.trans h0)
+      · exact h3.trans (h1.trans h0)
+
+theorem TchRel.pruneApps (now old : Time) (l : List String) :
+    ∀ {b a : Sys}, TchRel u t m ap b a → (b.listeners ap m ≠ [] ∨ NoSplit u t old) →
+      TchRel u t m ap (b.pruneApps now old l).1 (a.pruneApps now old l).1 ∧
+        (a.pruneApps now old l).2 = (b.pruneApps now old l).2 := by
+  induction l with
+  | nil => intro b a h _; exact ⟨h, rfl⟩
+  | cons app rest ih =>
+    intro b a h hns
+    unfold Sys.pruneApps
+    obtain ⟨h1, e1⟩ := h.prune app now old (fun _ => hns)
+    have hc := prune_conns b app now old
+    cases hb : b.prune app now old with
+    | mk b1 rb1 =>
+      cases ha : a.prune app now old with
+      | mk a1 ra1 =>
+        rw [hb, ha] at h1 e1
+        rw [hb] at hc
+        dsimp only at h1 e1 hc
+        subst e1
+        cases ra1 with
+        | false => exact ⟨h1, rfl⟩
+        | true =>
+          refine ih h1 ?_
+          simp only [Sys.listeners, hc]
+          exact hns
+
+theorem TchRel.allApps (h : TchRel u t m ap b a) : a.allApps = b.allApps := by
+  unfold Sys.allApps
+  rw [h.db.nps, h.db.mbApps, h.db.msgs]
+
+theorem TchRel.dumpStats (h : TchRel u t m ap b a) (now : Time) :
+    TchRel u t m ap (b.dumpStats now) (a.dumpStats now) := by
+  unfold Sys.dumpStats
+  rw [h.cfg]
+  split
+  · exact (h.modUdb _ _).ucommit
+  · exact h
+
+/-- one firing of `expire()` -/
+theorem TchRel.expire (h : TchRel u t m ap b a) (now : Time) (fault : Bool)
+    (hns : fault = false → b.listeners ap m ≠ [] ∨ NoSplit u t (now - Generated.expirationTicks)) :
+    TchRel u t m ap (b.expire now fault) (a.expire now fault) := by
+  unfold Sys.expire
+  dsimp only
+  have h0 := h.emit (.fired now (now - Generated.expirationTicks))
+  cases fault with
+  | true => exact (h0.emit _).dumpStats now
+  | false =>
+    simp only [Bool.false_eq_true, if_false]
+    rw [h0.allApps]
+    obtain ⟨h1, e1⟩ := TchRel.pruneApps now (now - Generated.expirationTicks)
+      (b.emit (.fired now (now - Generated.expirationTicks))).allApps h0 (hns rfl)
+    cases hb : (b.emit (.fired now (now - Generated.expirationTicks))).pruneApps now
+        (now - Generated.expirationTicks) (b.emit (.fired now (now - Generated.expirationTicks))).allApps with
+    | mk b1 rb1 =>
+      cases ha : (a.emit (.fired now (now - Generated.expirationTicks))).pruneApps now
+          (now - Generated.expirationTicks) (b.emit (.fired now (now - Generated.expirationTicks))).allApps with
+      | mk a1 ra1 =>
+        rw [hb, ha] at h1 e1
+        dsimp only at h1 e1
+        subst e1
+        cases ra1 with
+        | true => exact h1.dumpStats now
+        | false => exact (h1.emit _).dumpStats now
 
 end Sys
 end Wormhole
